@@ -7,6 +7,11 @@ map EVERY zero-mantissa tuple -- +inf, -inf and nan included -- to zero, so
 into 0 (acos(mpc('nan', 1)) == 0 on the pinned tree).  mpf_pos is the
 special-safe way to round an existing value.  Exactness of perfect powers,
 fast paths at multiples of pi/2 etc. are value questions and are not decided.
+
+Rule B-R7 (sa/guard_bits.py): inside the kernels, an inexact intermediate that is
+rounded at the target precision itself must not be an operand of a computation
+that runs with guard bits (a contradiction inside one region; it is what makes
+root(a**n, n) miss the exact integer when 1/n is rounded at prec).
 """
 import ast
 
@@ -14,6 +19,14 @@ from ..index import AnalysisError, norm
 from ..prec_effect import _walk_own
 from ..report import Finding
 from ..round_flow import KERNEL_MODULES
+from ..guard_bits import check_guard_bits, GuardScan
+
+LIBMPC = 'mpmath/libmp/libmpc.py'
+# the complex exponential/trigonometric family: every member (10 of 10 on the pinned tree) hands an
+# argument with exactly zero imaginary part to the real kernel, which does the careful argument
+# reduction; the general formulas cancel catastrophically near the real zeros/poles
+AXIS_FAMILY = ['mpc_exp', 'mpc_cos', 'mpc_sin', 'mpc_tan', 'mpc_cos_pi', 'mpc_sin_pi', 'mpc_cos_sin',
+               'mpc_cos_sin_pi', 'mpc_expj', 'mpc_expjpi']
 
 NORMALISERS = {'normalize', 'normalize1', '_normalize', '_normalize1'}
 
@@ -33,6 +46,42 @@ def fieldwise(call):
     return bases[0] if len(set(bases)) == 1 else None
 
 
+def axis_delegation(f):
+    """-> (ok, reason): the function unpacks its argument into (RE, IM) and, before IM reaches any
+    kernel, tests `IM == fzero` and returns from real kernels of RE at the caller's (prec, rnd)"""
+    body = [st for st in f.node.body if not (isinstance(st, ast.Expr) and isinstance(st.value, ast.Constant))]
+    if not body or not (isinstance(body[0], ast.Assign) and isinstance(body[0].targets[0], ast.Tuple) and
+                        len(body[0].targets[0].elts) == 2 and norm(body[0].value) == f.params[0]):
+        return False, 'argument is not unpacked into (real, imaginary) first'
+    re_, im_ = [norm(e) for e in body[0].targets[0].elts]
+    for st in body[1:]:
+        if isinstance(st, ast.If) and isinstance(st.test, ast.Compare) and len(st.test.ops) == 1 and \
+                isinstance(st.test.ops[0], (ast.Eq, ast.Is)) and norm(st.test.left) == im_ and \
+                norm(st.test.comparators[0]) == 'fzero':
+            rets = [x for s2 in st.body for x in ast.walk(s2) if isinstance(x, ast.Return)]
+            if not rets:
+                return False, 'the zero-imaginary-part branch does not return'
+            names = set(n.id for s2 in st.body for n in ast.walk(s2) if isinstance(n, ast.Name))
+            if im_ in names:
+                return False, 'the zero-imaginary-part branch still computes with the imaginary part'
+            calls = [x for s2 in st.body for x in ast.walk(s2) if isinstance(x, ast.Call) and
+                     isinstance(x.func, ast.Name) and x.func.id.startswith('mpf_')]
+            if not calls or re_ not in names:
+                return False, 'the zero-imaginary-part branch does not call a real kernel on the real part'
+            for c in calls:
+                args = [norm(a) for a in c.args]
+                if args[-2:] != [f.params[1], f.params[2]]:
+                    return False, 'real kernel %s is not called with the caller\'s (prec, rnd)' % c.func.id
+            return True, '%s == fzero -> %s' % (im_, ', '.join(sorted(set(c.func.id for c in calls))))
+        # a statement that feeds IM into a kernel before the test
+        for x in ast.walk(st):
+            if isinstance(x, ast.Call) and isinstance(x.func, ast.Name) and x.func.id.startswith(('mpf_', 'mpc_')):
+                if any(isinstance(n, ast.Name) and n.id == im_ for a in x.args for n in ast.walk(a)) and \
+                        not (isinstance(st, ast.If) and norm(st.test.left if isinstance(st.test, ast.Compare) else st.test) == re_):
+                    return False, 'the imaginary part reaches %s before any exact-zero test' % x.func.id
+    return False, 'no `%s == fzero` fast path' % im_
+
+
 def run(run, ix, tier):
     run.explanation = (
         'Every call of the finite-only normaliser in the package is inspected: it may be '
@@ -40,7 +89,9 @@ def run(run, ix, tier):
         'the unpacked fields of a value under a non-zero-mantissa guard, but never '
         'field-wise to an existing value (which may be inf/nan and would become 0).  '
         'A built-in positive example keeps the detector honest (expected count on a '
-        'healthy tree is zero).')
+        'healthy tree is zero).  Second clause (B-R7): every (intermediate, consumer) pair of kernel '
+        'calls inside the libmp kernels whose precisions are comparable (same symbolic base) is examined; '
+        'an intermediate rounded with no guard bits must not feed a consumer that runs with guard bits.')
     run.assumptions = []
     run.trusted = []
     run.rule('B-R6', floor=20, desc='normaliser call sites inspected')
@@ -67,3 +118,25 @@ def run(run, ix, tier):
                     else:
                         run.ok('B-R6', '%s:%s %s' % (rel, f.qualname, norm(x, 60)) if n < 8 else None)
     run.stats['normaliser_call_sites'] = n
+    # ---- B-R7 ---------------------------------------------------------------------------
+    run.rule('B-R7', floor=60, desc='intermediate -> consumer precision pairs examined')
+    g = GuardScan()
+    g.scan_function(ast.parse(
+        'def f(s, n, prec, rnd):\n    prec2 = prec + 10\n    nth = mpf_rdiv_int(1, s, prec)\n'
+        '    return mpf_pow(s, nth, prec2, rnd)\n').body[0], 'prec')
+    if len(g.findings) != 1:
+        raise AnalysisError('B-R7 detector does not recognise its positive example')
+    check_guard_bits(run, ix, 'B-R7')
+    # ---- B-R8: real-axis delegation of the complex exp/trig family ---------------------------------
+    run.rule('B-R8', floor=10, desc='complex exp/trig kernels delegate real-axis arguments to the real kernel')
+    for name in AXIS_FAMILY:
+        f = ix.func(LIBMPC, name)
+        ok, why = axis_delegation(f)
+        if ok:
+            run.ok('B-R8', '%s: %s' % (name, why))
+        else:
+            run.fail(Finding('B-R8', LIBMPC, name, 'def %s' % name,
+                             '%s: all %d members of the complex exp/trig family hand a complex-typed real '
+                             'argument to the real kernel (which reduces the argument carefully); the general '
+                             'formula cancels near the real zeros/poles, so finite values become '
+                             'ZeroDivisionError or garbage there' % (why, len(AXIS_FAMILY)), line=f.lineno))
